@@ -64,6 +64,15 @@ early return vs ?: and the like make no difference.  Failures are classified by 
         one: the start methods reset the accumulation buffer.
  S1-text-nesting-grammar     WKT and GeoJSON: geometry keyword, brackets balanced, exactly one separator between siblings and none
         dangling, coordinate pairs with the format's delimiters, formatted with the precision member the constructor fills.
+ M1-config-members-survive  the members a back end's constructor sets (srid prefix, precision, srid, wkb / wkt / out type) are never
+        assigned, mutated, swapped, moved from or bound to a non-const reference outside constructors (a member every start
+        method resets is per-geometry state instead); the abstract runs additionally treat a consumed std::move(member) as
+        leaving an unspecified value, so a moved-from member shows in the second geometry.
+ B8-counter-width-covers-count-field   every value handed to set_size (written into the 4 byte count field) has a type at least as
+        wide as that field: a narrower counter member wraps long before the field does.
+ Z1-no-shared-mutable-state  nothing in the call closure of the factory / back-end methods and double2string declares a writable
+        function-local static or writes a namespace-scope / static-member variable (two factories in two threads must not share
+        a formatting buffer).
  B4-set_size-range-guard     the narrowing to uint32_t in set_size happens exactly for sizes <= UINT32_MAX (ORDERTYPE on the guard),
         larger ones throw geometry_error.
  H1-hex-encoding             convert_to_hex appends lookup[(c >> 4) & 15] then lookup[c & 15] for all 256 byte values and
@@ -85,7 +94,7 @@ import itertools
 from .. import ordertype as OT
 from ..c17_util import (POS, TOP, Model, ModelAbort, ModelError, ModelThrow, ModelUnknown, Obj, Str, Sym, abs_cond, address_taken, char_of, decl_of,
                         delta_states, exit_t, is_abort_block, is_this, local_or_param, loop_header_block, onode, origin, param_index, peel, pn,
-                        recv_field, short, string_of, writes)
+                        recv_field, short, string_of, this_field, writes)
 from ..flow import describe_path, guards_of, path_search
 
 EXPLANATION = (
@@ -1618,6 +1627,10 @@ def _abstract_check(fb, R, cls, make_obj, configs, decode, rules, site_of):
                             got = decode(ret.t, kind, cfg)
                             if got != expect:
                                 raise _GrammarError('structure %r was fed in but the output encodes %r' % (expect, got))
+                            moved = [f for f, v in obj.f.items() if isinstance(v, Str) and any(isinstance(t, tuple) and t[0] == 'MOVED-FROM' for t in v.t)]
+                            if moved:
+                                raise _GrammarError('member %s is left in a moved-from state: the next geometry of this factory reads an unspecified value'
+                                                    % moved[0], 'config')
                             left = [f for f, v in obj.f.items() if isinstance(v, Str) and v.t and not any(isinstance(t, tuple) and t[0] == 'PFX' for t in v.t)]
                             if left and kind != 'point':
                                 raise _GrammarError('finish leaves %r in %s' % (_show(obj.f[left[0]].t), left[0]))
@@ -1800,6 +1813,7 @@ def wkb_rules(fb, R):
         'coord': ('X1-axis-order', '', KINDS),
         'hex': ('B7-hex-iff-requested', '', KINDS),
         'reset': ('B6-start-resets-buffer', '', STARTED_KINDS),
+        'config': ('M1-config-members-survive', '/abstract-run', KINDS),
     }, site)
     _wkb_set_size(fb, R)
 
@@ -1935,7 +1949,199 @@ def text_rules(fb, R):
             'count': ('S1-text-nesting-grammar', '', KINDS),
             'precision': ('S1-text-nesting-grammar', '/precision-member', KINDS),
             'reset': ('B6-start-resets-buffer', '', STARTED_KINDS),
+            'config': ('M1-config-members-survive', '/abstract-run', KINDS),
         }, site)
+
+
+# ------------------------------------------------------------------------------------------------ configuration members, counters, shared state
+
+MUTATING_STRING_CALLS = ('clear', 'operator=', 'assign', 'operator+=', 'append', 'push_back', 'pop_back', 'insert', 'erase', 'replace', 'resize', 'swap')
+
+
+def _ctor_config_members(fb, cls):
+    """members a constructor of the back end sets from its parameters / in its body: the factory's configuration"""
+    out = set()
+    for c in fb.fns(cls + '::(ctor)'):
+        if len(c.params) == 1 and cls in c.params[0]['tC']:
+            continue        # copy / move constructor
+        for n in c.all_nodes():
+            if n.get('k') == 'init' and 'name' in n and isinstance(n.get('init'), int) and \
+                    any(c.nodes[x].get('k') == 'var' and c.nodes[x].get('vk') == 'param' for x in c.subtree(n['init'])):
+                out.add(n['name'])
+            if n.get('k') == 'call' and n.get('q', '').startswith(BS) and short(n['q']) in MUTATING_STRING_CALLS and recv_field(c, n):
+                out.add(recv_field(c, n))
+        for (n, key, kind, rhs) in writes(c):
+            if key[0] == 'field':
+                out.add(key[1])
+    return out
+
+
+def config_rules(fb, R):
+    """M1: the configuration of a factory (members its constructor sets: srid prefix, precision, srid, wkb / out / wkt type) survives every
+    geometry: outside constructors these members are never assigned, incremented, mutated through a member call, swapped, moved from
+    (std::move / std::exchange) or bound to a non-const reference parameter.  Per-geometry state is what the protocol methods write."""
+    for cls in (WKB, WKT, GEOJSON):
+        rec = fb.record(cls)
+        if rec is None:
+            R.broken('record %s not found' % cls)
+            continue
+        cfg = _ctor_config_members(fb, cls)
+        methods = [f for f in fb.functions if f.cls == cls and f.has_cfg and not f.is_lambda and f.kind not in ('ctor', 'dtor')]
+        # a member that every top-level start method resets is per-geometry state, whatever the constructor does with it
+        starts = [f for f in methods if f.name in ('linestring_start', 'polygon_start', 'multipolygon_start')]
+
+        def resets(f, name):
+            for (n, key, kind, rhs) in writes(f):
+                if key == ('field', name) and kind in ('assign', 'opassign'):
+                    return True
+            return any(n.get('k') == 'call' and recv_field(f, n) == name and n.get('q', '').startswith(BS) and short(n['q']) in ('clear', 'operator=', 'assign')
+                       for n in f.all_nodes())
+        cfg = {m for m in cfg if not (starts and all(resets(f, m) for f in starts))}
+        if not cfg:
+            R.broken('%s: no configuration member found' % cls)
+            continue
+        for m in sorted(cfg):
+            key = '%s::%s#survives-every-geometry' % (cls, m)
+            bad = None
+            for f in methods:
+                pm = f.parent_map()
+                for (n, k_, kind, rhs) in writes(f):
+                    if k_ == ('field', m):
+                        bad = bad or (f, n, 'is written (%s)' % kind)
+                for n in f.all_nodes():
+                    if n.get('k') != 'call':
+                        continue
+                    q_ = n.get('q', '')
+                    if recv_field(f, n) == m and ((q_.startswith(BS) and short(q_) in MUTATING_STRING_CALLS) or (short(q_).startswith('operator') and n.get('op') in ('=', '+=', '-=', '++', '--'))):
+                        bad = bad or (f, n, 'is modified by %s' % short(q_))
+                    if q_ in ('std::move', 'std::exchange', 'std::swap') and any(this_field(f, a) == m for a in n.get('args', [])):
+                        # std::move in a const method yields a const xvalue, which copies
+                        if not (q_ == 'std::move' and f.const):
+                            bad = bad or (f, n, 'is handed to %s' % q_)
+                    if n.get('u') and any(this_field(f, a) == m for a in n.get('args', [])):
+                        for g in fb.by_usr.get(n['u'], []):
+                            for a, prm in zip(n.get('args', []), g.params):
+                                t_ = prm['tC'].rstrip()
+                                if this_field(f, a) == m and t_.endswith('&') and not t_.endswith('&&') and not t_.startswith('const '):
+                                    bad = bad or (f, n, 'is bound to the non-const reference parameter %s of %s' % (prm['name'], g.q))
+            R.check(bad is None, 'M1-config-members-survive', key, bad[0].loc(bad[1]['id']) if bad else '%s:%d' % (rec.file, rec.line),
+                    'configuration member %s of %s %s in %s: every later geometry of the same factory is built with a different setting%s'
+                    % (m, short(cls), bad[2] if bad else '', short(bad[0].q) if bad else '', ' (a moved-from string is empty / unspecified)' if bad and 'std::' in bad[2] else ''),
+                    detail='set by the constructor, untouched by %d methods' % len(methods))
+
+
+def counter_width_rules(fb, R):
+    """B8: the value handed to set_size (which writes it into a 4 byte count field) comes from a variable at least as wide as that field:
+    a narrower counter member wraps (65536 points -> 0) long before the field does."""
+    ss = _method(fb, WKB, 'set_size')
+    width = 4
+    if ss is not None:
+        for n in ss.all_nodes():
+            if n.get('k') == 'call' and n.get('q') in ('std::copy_n', 'memcpy', 'std::memcpy') and len(n.get('args', [])) == 3:
+                c = ss.const_value(n['args'][1] if n['q'] == 'std::copy_n' else n['args'][2])
+                if c:
+                    width = c
+    rec = fb.record(WKB)
+    ftype = {f['name']: f['tC'] for f in rec.fields} if rec else {}
+    from ..c17_util import _SIZES
+    methods = [f for f in fb.functions if f.cls == WKB and f.has_cfg and not f.is_lambda]
+    n_sites = 0
+    for f in methods:
+        for n in f.all_nodes():
+            if n.get('k') != 'call' or n.get('q') != WKB + '::set_size' or len(n.get('args', [])) != 2:
+                continue
+            n_sites += 1
+            key = '%s::%s#count-type-covers-count-field' % (WKB, f.name)
+            cnt = n['args'][1]
+            if f.const_value(cnt) is not None:
+                R.ok('B8-counter-width-covers-count-field', key, f.loc(n['id']), detail='constant %d' % f.const_value(cnt))
+                continue
+            fld = this_field(f, cnt)
+            d = local_or_param(f, cnt)
+            t = None
+            what = f.expr(cnt)
+            if fld is not None:
+                t = ftype.get(fld)
+            elif d is not None:
+                t = next((p['tC'] for p in f.params if p['d'] == d), None)
+                if t is None:
+                    dn, dv = decl_of(f, d)
+                    t = dv['tC'] if dv else None
+            tt = (t or '').replace('const ', '').strip()
+            sz = _SIZES.get(tt)
+            if sz is None:
+                R.broken('%s: type %r of the count %s handed to set_size not understood' % (f.full, t, what))
+                continue
+            R.check(sz >= width and tt not in ('bool',), 'B8-counter-width-covers-count-field', key, f.loc(n['id']),
+                    'the count `%s` written into the %d byte count field by %s has the %d byte type %s: it wraps at %d elements while the field could '
+                    'hold them' % (what, width, f.name, sz, tt, 1 << (8 * sz)), detail='%s : %s' % (what, tt))
+    if n_sites == 0:
+        R.broken('%s: no call of set_size found' % WKB)
+
+
+def _is_const_t(t):
+    t = (t or '').strip()
+    return (t.startswith('const ') and not t.endswith(('*', '&'))) or t.endswith(' const') or t.endswith('*const')
+
+
+def shared_state_rules(fb, R):
+    """Z1: nothing in the call closure of the GeometryFactory / back-end methods keeps state between calls that another factory (another
+    thread) shares: no function-local `static` that can be written (non-const type, or written / handed out writable in its function),
+    no write to a namespace-scope or static-member variable."""
+    roots = [f for f in fb.functions if f.has_cfg and (f.cls == GF or f.cls in (WKB, WKT, GEOJSON) or f.q in ('osmium::double2string',))]
+    if not roots:
+        R.broken('no GeometryFactory method instantiated')
+        return
+    seen = {}
+    work = [(f, None) for f in roots]
+    while work:
+        f, parent = work.pop()
+        if id(f) in seen:
+            continue
+        seen[id(f)] = (f, parent)
+        for n in f.all_nodes():
+            if n.get('k') in ('call', 'construct') and n.get('u'):
+                for g in fb.by_usr.get(n['u'], []):
+                    if g.has_cfg and id(g) not in seen and g.q.startswith('osmium::'):
+                        work.append((g, f))
+    bad = None
+    nstat = 0
+    for (f, _p) in seen.values():
+        ws = writes(f)
+        for n in f.all_nodes():
+            if n.get('k') == 'decl':
+                for v in n['vars']:
+                    if not v.get('static'):
+                        continue
+                    nstat += 1
+                    t = v['tC']
+                    if _is_const_t(t):
+                        continue
+                    # pointer to const that is itself never re-seated: a named constant
+                    ptr_to_const = t.replace(' ', '').endswith('*') and t.strip().startswith('const ')
+                    touched = any(w[1] == ('var', v['d']) for w in ws) or address_taken(f, ('var', v['d']))
+                    if ptr_to_const and not touched:
+                        continue
+                    bad = bad or (f, n, 'function-local `static %s %s`' % (v['t'], v['name']))
+            if n.get('k') in ('var', 'member') and (n.get('vk') in ('global', 'static_member') or n.get('staticvar')) and not _is_const_t(n.get('t')) \
+                    and n.get('q', '').startswith('osmium::') and n.get('vk') != 'function':
+                pm = f.parent_map()
+                x = n['id']
+                hops = 0
+                while x in pm and hops < 8:
+                    p = f.nodes[pm[x]]
+                    hops += 1
+                    if p.get('k') in ('wrap', 'index') or (p.get('k') == 'member' and p.get('field')):
+                        x = p['id']
+                        continue
+                    if (p.get('k') == 'assign' and x in f.subtree(p['lhs'])) or (p.get('k') == 'unop' and p.get('op') in ('++', '--', '&')):
+                        bad = bad or (f, n, 'write to the variable %s' % n.get('q'))
+                    break
+    key = GF + '#call-closure-shares-no-mutable-state'
+    R.check(bad is None, 'Z1-no-shared-mutable-state', key, bad[0].loc(bad[1]['id']) if bad else roots[0].site,
+            '%s in %s, which every geometry export reaches: two factories used by two threads overwrite each other\'s data (e.g. the digits of a '
+            'number being formatted)' % (bad[2] if bad else '', bad[0].q if bad else ''),
+            detail='%d bodies in the closure, %d function-local statics, all constant' % (len(seen), nstat))
 
 
 # ------------------------------------------------------------------------------------------------ Coordinates::append_to_string
@@ -2441,6 +2647,9 @@ def backend_rules(fb, R):
     accessor_rules(fb, R)
     wkb_rules(fb, R)
     text_rules(fb, R)
+    config_rules(fb, R)
+    counter_width_rules(fb, R)
+    shared_state_rules(fb, R)
     coordinates_rules(fb, R)
     hex_rules(fb, R)
     snprintf_rules(fb, R)
@@ -2482,6 +2691,9 @@ def run(ctx):
     R.expect('B5-header-layout', 4)
     R.expect('B6-start-resets-buffer', 9)                 # 3 back ends x 3 geometry kinds that have a start method
     R.expect('B7-hex-iff-requested', 4)
+    R.expect('M1-config-members-survive', 19)             # 7 configuration members + 12 abstract-run instances (3 back ends x 4 kinds)
+    R.expect('B8-counter-width-covers-count-field', 7)    # the 7 methods that call set_size
+    R.expect('Z1-no-shared-mutable-state', 1)
     R.expect('S1-text-nesting-grammar', 16)               # 2 formats x 4 geometry kinds x (grammar, precision member)
     R.expect('H1-hex-encoding', 1)
     R.expect('N1-snprintf-length-bounded', 2)
@@ -2501,5 +2713,6 @@ SELFTESTS = [(r, 'c17_geom.cpp', _st_factory) for r in (
     'W1-wrapper-forwards', 'T1-create-protocol',
     'D1-direction-and-uniqueness-dispatch', 'D2-reverse-iterators', 'G1-degenerate-threshold')] + [(r, 'c17_geom.cpp', _st_backend) for r in (
         'P1-checked-accessors', 'X1-axis-order', 'B1-wkb-counts-match-elements', 'B4-set_size-range-guard', 'B5-header-layout',
-        'B6-start-resets-buffer', 'B7-hex-iff-requested', 'S1-text-nesting-grammar',
+        'B6-start-resets-buffer', 'B7-hex-iff-requested', 'S1-text-nesting-grammar', 'M1-config-members-survive',
+        'B8-counter-width-covers-count-field', 'Z1-no-shared-mutable-state',
         'H1-hex-encoding', 'N1-snprintf-length-bounded', 'N2-zero-trim-needs-fraction')]
